@@ -57,12 +57,6 @@ MapSymOf(s) == [j \in 1..s.ns |-> LET P(t) == s.perms[t][j] \in Range(s.p2s) IN 
 
 DimOf(s) == s.d
 
-(* a space-group operation (R, perm): an integer orthogonal R is a signed permutation *)
-(* matrix, R[a][k] = sg[k] if a = ax[k] else 0  (checked in ValidOps)                  *)
-SparseOp(op) ==
-  LET ax == [k \in 1..3 |-> (CHOOSE a \in 1..3 : op.R[a][k] # 0) - 1]
-  IN [R |-> op.R, perm |-> op.perm, ax |-> ax, sg |-> [k \in 1..3 |-> op.R[ax[k] + 1][k]]]
-
 Sys(k) ==
   LET s == Systems[k]
       ms == Materialize(MapSymOf(s))
@@ -71,7 +65,8 @@ Sys(k) ==
       nsym |-> Materialize(NSymOf(s)),
       mapsym |-> ms,
       mapatom |-> Materialize([j \in 1..s.ns |-> s.perms[ms[j] + 1][j]]),
-      ops |-> IF "ops" \in DOMAIN s THEN Materialize([g \in 1..Len(s.ops) |-> SparseOp(s.ops[g])]) ELSE <<>>]
+      ops |-> IF "ops" \in DOMAIN s THEN s.ops ELSE <<>>,
+      G |-> IF "G" \in DOMAIN s THEN s.G ELSE <<<<1, 0, 0>>, <<0, 1, 0>>, <<0, 0, 1>>>>]
 
 
 (* what a set of pure lattice translations must be: a commutative group of  *)
@@ -282,42 +277,50 @@ Expand(T, c) ==
       c.ok)
 
 -----------------------------------------------------------------------------
-(* set_tensor_symmetry_PJ: mean over the operations g = (R, perm) of         *)
-(* R^T Phi(g i, g j) R   (d = 3)                                             *)
-(* (R^T X R)[k][l] = sum_ab R[a][k] X[a][b] R[b][l] = sg[k] sg[l] X[ax[k]][ax[l]] *)
-RtXR(T, a, op, gi, gj, k, l) ==
-  op.sg[k + 1] * op.sg[l + 1] * a[Pos(T, gi, gj, op.ax[k + 1], op.ax[l + 1])]
+(* set_tensor_symmetry_PJ: mean over the space-group operations g of               *)
+(* R^T Phi(g i, g j) R, R the Cartesian rotation of g.  For the space-group routes  *)
+(* the arrays are kept in COVARIANT COMPONENTS of a frame F (rows = the supercell's  *)
+(* lattice vectors): Phi_F = F Phi F^T.  There the same mean reads                   *)
+(* W^T Phi_F(g i, g j) W with W = F^-T R F^T the rotation in lattice coordinates, an  *)
+(* INTEGER matrix for every lattice (hexagonal, monoclinic, rigidly rotated, ...);   *)
+(* R orthogonal  <=>  W^T G W = G for the Gram matrix G = F F^T (ValidOps).          *)
+(* An operation is [W, perm]; perm[i] = image of atom i.  (d = 3)                     *)
+WtXW(T, a, W, gi, gj, k, l) ==
+  LET b == Pos(T, gi, gj, 0, 0) - 1
+      Tm(p, q) == IF W[p][k + 1] = 0 \/ W[q][l + 1] = 0 THEN 0
+                  ELSE W[p][k + 1] * a[b + 3 * (p - 1) + q] * W[q][l + 1]
+  IN Tm(1, 1) + Tm(1, 2) + Tm(1, 3) + Tm(2, 1) + Tm(2, 2) + Tm(2, 3) + Tm(3, 1) + Tm(3, 2) + Tm(3, 3)
 
 SGAverage(T, r) ==
   LET ng == Len(T.ops)
       RECURSIVE G(_, _)
       G(g, m) == IF g > ng THEN 0
-                 ELSE RtXR(T, r.a, T.ops[g], T.ops[g].perm[RowOf(T, m) + 1], T.ops[g].perm[ColOf(T, m) + 1],
+                 ELSE WtXW(T, r.a, T.ops[g].W, T.ops[g].perm[RowOf(T, m) + 1], T.ops[g].perm[ColOf(T, m) + 1],
                            KOf(T, m), LOf(T, m)) + G(g + 1, m)
   IN Arr(r.den * ng, [m \in 1..Size(T, T.ns) |-> G(1, m)], r.ok)
 
 (* invariance under the space-group operations of the system:                 *)
-(* Phi(g i, g j) = R Phi(i, j) R^T  for every operation g = (R, perm)           *)
+(* Phi(g i, g j) = R Phi(i, j) R^T  for every operation g, i.e. in the frame     *)
+(* W^T Phi_F(g i, g j) W = Phi_F(i, j)                                           *)
 SGInv(T, f) ==
   \A g \in 1..Len(T.ops) : \A m \in 1..Size(T, T.ns) :
-     RtXR(T, f.a, T.ops[g], T.ops[g].perm[RowOf(T, m) + 1], T.ops[g].perm[ColOf(T, m) + 1], KOf(T, m), LOf(T, m))
+     WtXW(T, f.a, T.ops[g].W, T.ops[g].perm[RowOf(T, m) + 1], T.ops[g].perm[ColOf(T, m) + 1], KOf(T, m), LOf(T, m))
        = f.a[m]
 
-(* what operations must be: integer orthogonal matrices with permutations, closed under composition *)
+(* what operations must be: integer isometries of the lattice (W^T G W = G) with atom  *)
+(* permutations, a group under composition, containing the pure translations           *)
 MatT(R) == [i \in 1..3 |-> [j \in 1..3 |-> R[j][i]]]
 MatM(A, B) == [i \in 1..3 |-> [j \in 1..3 |-> A[i][1] * B[1][j] + A[i][2] * B[2][j] + A[i][3] * B[3][j]]]
 Eye3 == <<<<1, 0, 0>>, <<0, 1, 0>>, <<0, 0, 1>>>>
 ValidOps(T) ==
-  /\ \A g \in 1..Len(T.ops) : /\ MatM(T.ops[g].R, MatT(T.ops[g].R)) = Eye3
+  /\ T.G = MatT(T.G)
+  /\ \A g \in 1..Len(T.ops) : /\ MatM(MatT(T.ops[g].W), MatM(T.G, T.ops[g].W)) = T.G
                               /\ IsPerm(T.ops[g].perm, T.ns)
-                              /\ \A a, k \in 1..3 :
-                                    T.ops[g].R[a][k] = IF a = T.ops[g].ax[k] + 1 THEN T.ops[g].sg[k] ELSE 0
-  /\ LET opset == {<<T.ops[g].R, T.ops[g].perm>> : g \in 1..Len(T.ops)}
+  /\ LET opset == {<<T.ops[g].W, T.ops[g].perm>> : g \in 1..Len(T.ops)}
      IN /\ Cardinality(opset) = Len(T.ops)
         /\ \A g, h \in 1..Len(T.ops) :
-              <<MatM(T.ops[g].R, T.ops[h].R), Compose(T.ops[g].perm, T.ops[h].perm)>> \in opset
-  /\ \A t \in 1..Len(T.perms) : \E g \in 1..Len(T.ops) : T.ops[g].R = Eye3 /\ T.ops[g].perm = T.perms[t]
-
+              <<MatM(T.ops[g].W, T.ops[h].W), Compose(T.ops[g].perm, T.ops[h].perm)>> \in opset
+  /\ \A t \in 1..Len(T.perms) : \E g \in 1..Len(T.ops) : T.ops[g].W = Eye3 /\ T.ops[g].perm = T.perms[t]
 
 -----------------------------------------------------------------------------
 (* show_drift_force_constants on a compact array prints, for the array transposed by the   *)
